@@ -105,11 +105,44 @@ Qed.
 Lemma to_mich_gmap : forall m v, to_mich m (g v) = to_mich m v.
 Proof. intros. apply to_mich_spine_gmap. Qed.
 
+Lemma read_prim_gmap : forall a p n, read_prim (f a) p n = option_map g (read_prim a p n).
+Proof.
+  intros a p n. unfold read_prim.
+  repeat match goal with |- context [if byte_eqb p ?t then _ else _] => destruct (byte_eqb p t) end;
+    try reflexivity; destruct n as [z|s|b|q args an|items]; try reflexivity.
+  - destruct (z <? 0)%Z; reflexivity.
+  - destruct ((z <? 0)%Z || (9223372036854775807 <? z)%Z); reflexivity.
+  - destruct args; [|reflexivity]. destruct (byte_eqb q P_True); [reflexivity|]. destruct (byte_eqb q P_False); reflexivity.
+  - destruct args; [|reflexivity]. destruct (byte_eqb q P_Unit); reflexivity.
+Qed.
+
+Lemma read_gmap : forall t n, read (tmap f t) n = option_map g (read t n).
+Proof.
+  induction t as [a p|a l IHl r IHr|a u IHu|a l IHl r IHr]; intro n.
+  - apply read_prim_gmap.
+  - simpl. destruct (pair_args n) as [[|x [|y [|z rest]]]|]; try reflexivity.
+    + rewrite IHl, IHr. destruct (read l x) as [vx|]; [|reflexivity]. destruct (read r y) as [vy|]; reflexivity.
+    + rewrite IHl, IHr. destruct (read l x) as [vx|]; [|reflexivity].
+      destruct (read r (NSeq (y :: z :: rest))) as [vy|]; reflexivity.
+  - simpl. destruct n as [z|s|b|q args an|items]; try reflexivity.
+    destruct args as [|x [|y args]]; try reflexivity.
+    + destruct (byte_eqb q P_None); reflexivity.
+    + destruct (byte_eqb q P_Some); [|reflexivity]. rewrite IHu. destruct (read u x) as [vx|]; reflexivity.
+  - simpl. destruct n as [z|s|b|q args an|items]; try reflexivity.
+    destruct args as [|x [|y args]]; try reflexivity.
+    destruct (byte_eqb q P_Left).
+    + rewrite IHl. destruct (read l x) as [vx|]; reflexivity.
+    + destruct (byte_eqb q P_Right); [|reflexivity]. rewrite IHr. destruct (read r x) as [vx|]; reflexivity.
+Qed.
+
 Lemma step_gmap : forall i s,
   step (f d) (imap f i) (map g s) = rmap (map g) (step d i s).
 Proof.
   intros i s. destruct i.
   - reflexivity.
+  - simpl. rewrite read_gmap. destruct (read t lit); reflexivity.
+  - destruct s as [|v s]; [reflexivity|]. destruct v; try reflexivity.
+    simpl. rewrite read_gmap. destruct (read t m); reflexivity.
   - destruct s as [|v s]; [reflexivity|]. destruct v; try reflexivity.
     change (map g (GPair a v1 v2 :: s)) with (g (GPair a v1 v2) :: map g s).
     change (step (f d) (imap f (IGet n)) (g (GPair a v1 v2) :: map g s))
@@ -146,13 +179,46 @@ Proof.
   - destruct s as [|v s]; reflexivity.
   - destruct s as [|x [|y s]]; reflexivity.
   - destruct s as [|v s]; reflexivity.
+  - destruct s as [|v s]; reflexivity.
+  - reflexivity.
+  - destruct s as [|v s]; reflexivity.
+  - destruct s as [|v s]; reflexivity.
+  - reflexivity.
+  - destruct s as [|v s]; [reflexivity|]. destruct v; try reflexivity.
+    simpl. destruct (byte_eqb p T_int); reflexivity.
+  - reflexivity.
+  - reflexivity.
+  - reflexivity.
+  - reflexivity.
+  - reflexivity.
+  - reflexivity.
+Qed.
+
+Lemma run_gmap : forall i s,
+  run (f d) (imap f i) (map g s) = rmap (map g) (run d i s).
+Proof.
+  induction i as [ | | | | | | | | | | | | | | | | | | | | | | x IHx y IHy | | x IHx y IHy | x IHx y IHy | x IHx y IHy | n x IHx ]; intro s;
+    try (match goal with |- run _ (imap f ?i) _ = _ => exact (step_gmap i s) end).
+  - simpl. rewrite IHx. destruct (run d x s); simpl; [apply IHy | reflexivity].
+  - reflexivity.
+  - destruct s as [|v s]; [reflexivity|]. destruct v; try reflexivity.
+    simpl. destruct b; [apply IHx | apply IHy].
+  - destruct s as [|v s]; [reflexivity|]. destruct v; try reflexivity.
+    + apply IHx.
+    + apply (IHy (v :: s)).
+  - destruct s as [|v s]; [reflexivity|]. destruct v; try reflexivity.
+    + apply (IHx (v :: s)).
+    + apply (IHy (v :: s)).
+  - simpl. rewrite map_length. destruct (length s <? n); [reflexivity|].
+    rewrite skipn_map, IHx. destruct (run d x (skipn n s)); simpl; [|reflexivity].
+    rewrite firstn_map, map_app. reflexivity.
 Qed.
 
 Lemma exec_gmap : forall p s,
   exec (f d) (map (imap f) p) (map g s) = rmap (map g) (exec d p s).
 Proof.
   induction p as [|i p IH]; intro s; [reflexivity|].
-  simpl. rewrite step_gmap. destruct (step d i s); simpl; [apply IH | reflexivity].
+  simpl. rewrite run_gmap. destruct (run d i s); simpl; [apply IH | reflexivity].
 Qed.
 End Nat2.
 
